@@ -45,4 +45,7 @@ var corpus = []string{
 	`local t = {}; local i = 1; while i <= 3 do local j = i; t[i] = function() return j end; i = i + 1 end; emit(t[1](), t[2](), t[3]()); local r = {}; local k = 1; repeat local j = k * 2; r[k] = function() return j end; k = k + 1 until k > 2; emit(r[1](), r[2]())`,
 	// fixed 1f23970: the body of `local f = function ... end` sees the f in scope before the statement
 	`fq = "global"; local fq = function() return fq end; emit(type(fq()), fq()); local function rq(n) if n == 0 then return type(rq) end return rq(n - 1) end; emit(rq(2)); local gq = 5; local gq = (function() return gq end); emit(gq())`,
+	// fixed f8bdc35 / 46ccea9: goto and break close a local whose capturing closure follows the jump in the text
+	`local fns, i = {}, 0; do ::L:: local x = i ::M:: i = i + 1; if i == 2 then goto L end; fns[#fns+1] = function() return x end; if i == 1 then goto M end end; emit(fns[1](), fns[2]())`,
+	`local f; while true do local x = 1 ::again:: if f then break end; f = function() return x end; goto again end; local y = 2; emit(f(), y)`,
 }
